@@ -2,3 +2,7 @@ check("C16", "exploration", "exhaustive enumeration + Hypothesis vs spec codec a
       "Every integer of the exhaustive ranges and boundary windows, every decoder input of length <=2 and every continuation pattern is evaluated; the rest of the 64-bit domain and the 15 scalar kinds are sampled with Hypothesis against two independent oracles (spec codec, google.protobuf). Exhaustive on the enumerated sub-domains, sampled elsewhere.",
       "Trusts vf/wire.py and google.protobuf 7.36.1 as oracles (they are cross-checked against each other on every range start).",
       "DESIGN.md 3/C16")
+check("C09", "exploration", "Hypothesis value trees + relational oracle (len / bytes / dump / delimited dump)",
+      "Generated message values over the kitchen-sink corpus (constructed, attribute-assigned, or parsed with interleaved unknown fields) are each checked for len(m)==len(bytes(m)), dump()==bytes(m), delimited dump == spec varint prefix + bytes(m), SerializeToString()==bytes(m); sizes around the 1/2/3-byte length-prefix boundaries are forced.",
+      "Samples the value space; the length prefix oracle is the spec varint encoder in vf/wire.py.",
+      "DESIGN.md 3/C09")
